@@ -393,6 +393,22 @@ func (l *queue) Append(b []byte) error {
 }
 
 // Current returns the current byte slice at the head of the queue
+// SkipExhaustedHead drops the head segment if every block in it has been consumed and a newer
+// segment exists. Unlike Advance it never skips a block: the reader calls it when Current reported
+// io.EOF, and a block may have been appended since.
+func (l *queue) SkipExhaustedHead() error {
+	l.mu.Lock()
+	defer l.mu.Unlock()
+	if l.head == nil {
+		return ErrNotOpen
+	}
+
+	if l.head.empty() {
+		return l.trimHead()
+	}
+	return nil
+}
+
 func (l *queue) Current() ([]byte, error) {
 	if l.head == nil {
 		return nil, ErrNotOpen
